@@ -644,6 +644,7 @@ func run(c *core.Ctx) {
 	explore.Explore(-1, func(x *explore.C) { cs = genCoreStyles(x) }, visit("core-styles"))
 	explore.Explore(-1, func(x *explore.C) { cs = genCoreEvents(x) }, visit("core-events"))
 	explore.Explore(-1, func(x *explore.C) { cs = genCoreText(x) }, visit("core-text"))
+	explore.Explore(-1, func(x *explore.C) { cs = genCoreStars(x) }, visit("core-stars"))
 	explore.Explore(-1, func(x *explore.C) { cs = genCoreInfo(x) }, visit("core-info"))
 	p := profile{thorough: thorough}
 	explore.Explore(2, func(x *explore.C) { cs = genBall(x, p) }, visit("ball"))
